@@ -1,5 +1,7 @@
 import SpectraVerif.Driver.Util
 import SpectraVerif.Gen.Guard
+import SpectraVerif.Gen.MatOpGuard
+import SpectraVerif.Model.C12Geigs
 namespace Drv.C12
 open Gen.Guard
 
@@ -20,5 +22,17 @@ def handle : List String → Option String
   | ["sigma_guard", mode, bits] => do
       let mode ← parseInt? mode; let s ← ofBits? bits
       pure (showRes (sigma_guard (α := Float) mode s))
+  -- wrapper constructors: `_variant` names the template instantiation (scalar, Uplo, storage order), the guard is the class's
+  | ["wrap1", cls, _variant, r, c] => do
+      let r ← parseInt? r; let c ← parseInt? c
+      let res ← Gen.MatOpGuard.wrap1 cls r c
+      pure (showRes res)
+  | ["wrap2", cls, _variant, ra, ca, rb, cb] => do
+      let ra ← parseInt? ra; let ca ← parseInt? ca; let rb ← parseInt? rb; let cb ← parseInt? cb
+      let res ← Gen.MatOpGuard.wrap2 cls ra ca rb cb
+      pure (showRes res)
+  | ["geigs_ctor", mode, nev, ncv, na, nb] => do
+      let mode ← parseInt? mode; let nev ← parseInt? nev; let ncv ← parseInt? ncv; let na ← parseInt? na; let nb ← parseInt? nb
+      pure (showRes (_root_.C12.geigs_solver_ctor mode nev ncv na nb))
   | _ => none
 end Drv.C12
